@@ -155,6 +155,32 @@ def srf_mesh(ctx, dim):
     ctx.ensure("repeatable-without-nugget", ctx.eq(again, un))
 
 
+@contract(P, "SRF.__call__/independent-of-previously-requested-positions", params={"dim": [1, 2], "mesh": ["unstructured", "structured"]},
+          functions=["field/srf.py:SRF.__call__", "field/base.py:Field.pre_pos", "field/base.py:Field.set_pos",
+                     "field/base.py:_pos_equal"], bounded="1-2 points per call, N = 2 modes", nsamples=2, search=30)
+def srf_pos_history(ctx, dim, mesh):
+    """for nugget-free models the value at a location does not depend on what was generated
+    before -- in particular not on whether the new positions are numerically close to the old"""
+    mod = sym_model(ctx, dim, nugget=False, aniso=False)
+    s = ctx.integer("seed", lo=1, hi=1000)
+    srf = _q(gs.SRF, mod, seed=s, mode_no=2)
+    fresh = _q(gs.SRF, mod, seed=s, mode_no=2)
+    p1 = [[ctx.real("p%d" % d, lo=-2, hi=2)] for d in range(dim)]
+    # second request: arbitrary other positions (the solver may place them arbitrarily close to p1)
+    p2 = [[ctx.real("q%d" % d, lo=-2, hi=2)] for d in range(dim)]
+    if ctx.mode == "conc":
+        import random
+        if random.Random(int(s)).random() < 0.5:        # natively: half of the samples inside allclose
+            p2 = [[p1[d][0] * (1 + 3e-6) + 2e-9] for d in range(dim)]
+    srf(p1, mesh_type=mesh)
+    got = srf(p2, mesh_type=mesh)
+    exp = fresh(p2, mesh_type=mesh)
+    ctx.ensure("second-call=fresh-object", ctx.eq(got, exp))
+    ctx.ensure("positions-stored=requested", ctx.eq(np.array(srf.pos, dtype=object).reshape(-1) if ctx.mode == "sym"
+                                                     else np.array(srf.pos, dtype=float).reshape(-1),
+                                                     np.array(p2, dtype=object if ctx.mode == "sym" else float).reshape(-1)))
+
+
 # ---------------------------------------------------------------------------------------
 # state = function of (seed value, model, settings): every mutator yields the fresh state
 # ---------------------------------------------------------------------------------------
